@@ -4,6 +4,9 @@ Python 3 standard library only."""
 import atexit, json, os, re, shutil, subprocess, sys, tempfile, time, glob, hashlib
 
 os.environ.setdefault("JAVA_TOOL_OPTIONS", "-Xss64m")
+# bin/tlc = the pre-installed TLC with -Xss64m on the command line: the launcher's main thread (ASSUMEs, constant definitions) only gets a
+# larger stack that way
+os.environ["PATH"] = os.path.join(os.path.dirname(os.path.dirname(os.path.abspath(__file__))), "bin") + os.pathsep + os.environ.get("PATH", "")
 os.environ.setdefault("SAMPLEK", "1")   # the file-format operators recurse over byte sequences
 VERIF = os.path.dirname(os.path.dirname(os.path.abspath(__file__)))      # relocatable: a snapshot of /verif (vp run) uses its own files
 REPO = os.environ.get("EZC3D_REPO", "/repo")       # registered commands never set this: it exists so that seeded changes can be tried on a scratch copy
